@@ -6,6 +6,12 @@ A case is one protocol line `mu.<op> <shape tokens> | <data>`:
     single-shape methods (`member.intersects_shape(x)` …), the member boxes, or a `split` scenario.
 The implementation answers the multi-level question on the real multi-shape, the Lean model runs the
 member loop (as coded) over the table, the spec says `any` / `all` over the table (the property text).
+
+`mu.hist <K> <init> | <pool> | <arguments> | <coordinates> | <tables> | <steps>` is an observe - edit - observe history
+on ONE live multi-shape: every C04 observation (contains_coordinate, intersects_shape / contains_shape in both argument
+orders, bounds, split) is asked, the member list is edited (delete / insert / replace / reorder / clear-and-refill, in
+place and by rebinding; time and property edits of a member and of the multi-shape), and asked again, about several
+different arguments in sequence.  The answers must be those of a freshly built multi-shape with the current members.
 """
 import itertools
 from fractions import Fraction
@@ -228,12 +234,209 @@ def spec(line):
     return None
 
 
+# --------------------------------------------------------------------------------------------------
+# observe - edit - observe histories on one live multi-shape
+# The only state a multi-shape may carry between calls is its current member list (plus its own dt / properties for
+# split).  Anything remembered from an earlier call - the member that matched last time, a cached union box, a cached
+# answer per argument, an iterator over the members - shows up as soon as the list is edited between two questions.
+
+def hist_tables(pool, args, coords):
+    """all member-level measurements a history can need (pool x arguments, pool x coordinates, boxes)"""
+    t = []
+    for j, a in enumerate(args):
+        parts = S.members(a) if S.is_multi(a) else [a]
+        t.append(f'A{j}=' + ('M' if S.is_multi(a) else 'P' if a.startswith('T:') else 'S'))
+        t.append(f'I{j}=' + '/'.join(row(measure('i', m, y) for y in parts) for m in pool))
+        t.append(f'J{j}=' + '/'.join(row(measure('i', y, m) for y in parts) for m in pool))
+        t.append(f'C{j}=' + '/'.join(row(measure('c', m, y) for y in parts) for m in pool))
+        t.append(f'D{j}=' + ('-' if S.is_multi(a) else row(measure('c', a, m) for m in pool)))
+    for r, c in enumerate(coords):
+        t.append(f'K{r}=' + row(measure('k', m, c) for m in pool))
+    t.append('X=' + '~'.join(box_tok(S.build(m, strip=True).bounds) for m in pool))
+    return t
+
+
+def mk_hist(K, init, pool, args, coords, steps):
+    try:
+        tabs = hist_tables(pool, args, coords)
+    except Exception:  # noqa - a single-shape method raised
+        return None
+    return (f'mu.hist {K} {",".join(map(str, init)) or "-"} | ' + ' '.join(pool) + ' | ' + ' '.join(args) + ' | ' +
+            ' '.join(coords) + ' | ' + ' '.join(tabs) + ' | ' + ' '.join(steps))
+
+
+def parse_hist(line):
+    secs = [x.split() for x in line.split(' | ')]
+    K, init = secs[0][1], secs[0][2]
+    init = [] if init == '-' else [int(x) for x in init.split(',')]
+    return K, init, secs[1], secs[2], secs[3], secs[4], secs[5]
+
+
+def _idx(txt):
+    return [] if txt in ('', '-') else [int(x) for x in txt.split(',')]
+
+
+def impl_hist(line):
+    import geostructures as g
+    import common
+    K, init, pool, args, coords, tabs, steps = parse_hist(line)
+    if hist_tables(pool, args, coords) != tabs:
+        return 'STALE-TABLE'
+    P = [S.build(m) for m in pool]
+    geoms = [x.strip_dt(inplace=False) for x in P]
+    A = [S.build(a) for a in args]
+    Cs = [S.build_coord(c) for c in coords]
+    cls = {'MP': g.MultiGeoPolygon, 'ML': g.MultiGeoLineString, 'MT': g.MultiGeoPoint}[K]
+    M = cls([P[i] for i in init])
+    out = []
+
+    def which(o):
+        o0 = o.strip_dt(inplace=False)
+        js = [j for j, gm in enumerate(geoms) if type(gm) is type(o0) and gm == o0]
+        return str(js[0]) if js else '?'
+    for n, st in enumerate(steps):
+        c, r = st[0], st[1:]
+        try:
+            L = M.geoshapes
+            if st == 'b':
+                out.append(','.join(rat(x) for x in M.bounds))
+            elif st == 's':
+                parts = M.split()
+                old = [id(M._properties)] + [id(m._properties) for m in L]
+                ids = [id(o._properties) for o in parts]
+                fresh = all(i not in old for i in ids) and len(set(ids)) == len(ids)
+                out.append('{geom=' + ','.join(which(o) for o in parts) + ' dt=' + '/'.join(show_optti(o.dt) for o in parts) +
+                           ' props=' + '/'.join(show_dict(o._properties) for o in parts) + ' fresh=' + tf(fresh) + '}')
+            elif c == '-':
+                if n % 2:
+                    del L[int(r)]
+                else:
+                    L.pop(int(r))
+                out.append('ok')
+            elif c == '+':
+                k, i = r.split(':')
+                L.insert(int(k), P[int(i)])
+                out.append('ok')
+            elif c == '*':
+                k, i = r.split(':')
+                L[int(k)] = P[int(i)]
+                out.append('ok')
+            elif c == 'o':
+                cur = list(L)
+                L[:] = [cur[p] for p in _idx(r)]
+                out.append('ok')
+            elif c == 'z':
+                new = [P[i] for i in _idx(r)]
+                L.clear()
+                L.extend(new)
+                out.append('ok')
+            elif c == 'Z':
+                M.geoshapes = [P[i] for i in _idx(r)]
+                out.append('ok')
+            elif c == '!':
+                m = L[int(r)]
+                m.set_dt(S.utc(S.BASE_US + n))
+                m.set_property('mk', str(n))
+                out.append('ok')
+            elif c == 'P':
+                k, v = r.split('=')
+                M.set_property(k, v)
+                out.append('ok')
+            elif c == 'D':
+                M.set_dt(parse_optti(r))
+                out.append('ok')
+            elif c == 'i':
+                out.append(tf(M.intersects_shape(A[int(r)])))
+            elif c == 'I':
+                out.append(tf(A[int(r)].intersects_shape(M)))
+            elif c == 'c':
+                out.append(tf(M.contains_shape(A[int(r)])))
+            elif c == 'C':
+                out.append(tf(A[int(r)].contains_shape(M)))
+            elif c == 'k':
+                out.append(tf(M.contains_coordinate(Cs[int(r)])))
+            else:
+                raise ValueError('bad step ' + st)
+        except Exception as e:  # noqa - an exception is this step's answer
+            out.append(common.err_name(e))
+    return ' '.join(out)
+
+
+def spec_hist(line):
+    """fresh-twin oracle: `any` / `all` over the tables restricted to the CURRENT members"""
+    K, members, pool, args, coords, tabs, steps = parse_hist(line)
+    T = dict(t.split('=', 1) for t in tabs)
+    mat = lambda name: [unrow(x) for x in T[name].split('/')]  # noqa: E731
+    boxes = [[Fraction(x) for x in b.split(',')] for b in T['X'].split('~')]
+    pdt, pp = 'none', {}
+    out = []
+    for st in steps:
+        c, r = st[0], st[1:]
+        if st == 'b':
+            if not members:
+                out.append('ERR:Value')
+            else:
+                bs = [boxes[i] for i in members]
+                out.append(','.join(rat(x) for x in (min(b[0] for b in bs), min(b[1] for b in bs),
+                                                    max(b[2] for b in bs), max(b[3] for b in bs))))
+        elif st == 's':
+            out.append('{geom=' + ','.join(map(str, members)) + ' dt=' + '/'.join(pdt for _ in members) +
+                       ' props=' + '/'.join(show_dict(pp) for _ in members) + ' fresh=T}')
+        elif c == '-':
+            del members[int(r)]
+            out.append('ok')
+        elif c == '+':
+            k, i = r.split(':')
+            members.insert(int(k), int(i))
+            out.append('ok')
+        elif c == '*':
+            k, i = r.split(':')
+            members[int(k)] = int(i)
+            out.append('ok')
+        elif c == 'o':
+            members = [members[p] for p in _idx(r)]
+            out.append('ok')
+        elif c in 'zZ':
+            members = _idx(r)
+            out.append('ok')
+        elif c == '!':
+            out.append('ok')
+        elif c == 'P':
+            k, v = r.split('=')
+            pp[k] = v
+            out.append('ok')
+        elif c == 'D':
+            pdt = r
+            out.append('ok')
+        elif c == 'i':
+            m = mat('I' + r)
+            out.append(tf(any(any(m[i]) for i in members)))
+        elif c == 'I':
+            mi, mj = mat('I' + r), mat('J' + r)
+            f, b = any(any(mj[i]) for i in members), any(any(mi[i]) for i in members)
+            if f != b:
+                return None                      # member-level asymmetry: C02's business
+            out.append(tf(f))
+        elif c == 'c':
+            m = mat('C' + r)
+            nparts = len(m[0]) if m else 0
+            out.append(tf(all(any(m[i][k] for i in members) for k in range(nparts))))
+        elif c == 'C':
+            d = unrow(T['D' + r])
+            out.append(tf(all(d[i] for i in members)))
+        elif c == 'k':
+            kr = unrow(T['K' + r])
+            out.append(tf(any(kr[i] for i in members)))
+    return ' '.join(out)
+
+
+
 def impl_for(_line):
-    return impl
+    return impl_hist if _line.startswith('mu.hist') else impl
 
 
 def spec_for(_line):
-    return spec
+    return spec_hist if _line.startswith('mu.hist') else spec
 
 
 # --------------------------------------------------------------------------------------------------
@@ -528,6 +731,128 @@ def check(run):
             add(lines, op, M, rng.choice(allsingles))
     run.run_cases('random', lines, impl, spec, tag=_tag, nontrivial=_nontrivial)
 
+
+    # ---- 10. observe - edit - observe histories on one live multi-shape -------------------------------------------------
+    OBS = ['i0', 'I0', 'c0', 'C0', 'k0', 'i1', 'I1', 'c1', 'C1', 'k1', 'i2', 'I2', 'c2', 'b', 'i3', 'I3', 'c3', 'C3', 'k2', 's']
+
+    def scenario(K, xi, x):
+        """pool 0=R (meets x) 1=R2 (meets x too, or the second argument) 2=N (near miss) 3=U (far, meets xfar) 4=U2 (far)"""
+        try:
+            related = [m for m in cands(K, FOCUS) if measure('i', m, x)]
+            near = [m for m in cands(K, FOCUS) if not measure('i', m, x)]
+        except Exception:  # noqa
+            return None
+        if not related:
+            return None
+        far = far_members(K)
+        pool = [related[xi % len(related)], related[(xi + 1) % len(related)] if len(related) > 1 else (near or far)[-1],
+                (near + far)[xi % len(near + far)], far[0], far[2]]
+        if len(set(pool)) < len(pool):
+            pool = list(dict.fromkeys(pool))
+            pool += [m for m in near + far + cands(K, 1) if m not in pool][:5 - len(pool)]
+        if len(pool) < 5:
+            return None
+        x2 = singles[(xi + 3) % len(singles)]
+        xfar = T[2][['Ts', 'Bs', 'Ls', 'Tm', 'Cs'][xi % 5]]
+        args = [x, x2, S.multi_pool(0, 1)[xi % 11], xfar]
+        coords = [S.ref_coords(FOCUS)[xi % 3], S.ref_coords(FOCUS)[(xi + 1) % 7], S.ref_coords(2)[xi % 3]]
+        return pool, args, coords
+
+    def block(h, focus):
+        k = h % len(OBS)
+        return (OBS[k:] + OBS[:k])[:run.scale(11, 20)] + [focus]   # the question asked last before an edit is about the edited member
+
+    lines = []
+    h = 0
+    xs_h = singles[::run.scale(4, 1)]
+    for K in ('MP', 'ML', 'MT'):
+        for xi, x in enumerate(xs_h):
+            sc = scenario(K, xi, x)
+            if sc is None:
+                continue
+            pool, args, coords = sc
+            for p in range(3):                       # position of R in the initial list; U sits right after it (cyclically)
+                init = [2, 2, 2]
+                init[p], init[(p + 1) % 3] = 0, 3
+                pu = (p + 1) % 3
+                without_r = [i for i in init if i != 0]
+                scripts = [
+                    ([f'-{p}'], 'i0', [f'+{(p + 2) % 3}:0']),
+                    ([f'-{pu}'], 'i3', ['+0:3']),
+                    ([f'*{p}:4'], 'i0', [f'*{pu}:0']),
+                    ([f'*{p}:1'], 'I0', ['-0', '-0']),
+                    ([f'*{pu}:4'], 'I3', ['+3:3', '-0']),
+                    (['+0:1', f'-{p + 1}'], 'i0', ['Z0']),
+                    ([f'o{2},{1},{0}'], 'c0', [f'o{1},{2},{0}', '-0']),
+                    (['z' + ','.join(map(str, without_r))], 'i0', ['z0,1,2,3']),
+                    (['Z' + ','.join(map(str, without_r))], 'i0', ['Z3,0']),
+                    (['z-'], 'i0', ['+0:0', '+0:3', '-1']),
+                    (['Z-'], 'k0', ['Z4,3', '*0:0']),
+                    (['z' + ','.join(map(str, init))], 'i0', [f'-{p}', f'-{0}']),
+                    ([f'!{p}', 'Pa=1', f'D{S.BASE_US},{S.BASE_US + 5}'], 's', [f'-{p}', 'Pb=2', 'Dnone', 's']),
+                    ([f'-{p}', f'+{p}:1', f'*{p}:0', f'-{p}'], 'i0', ['Z1,0,3,4', 'o3,2,1,0', '-3', '-0']),
+                ]
+                for si, (e1, focus, e2) in enumerate(scripts):
+                    h += 1
+                    if run.quick and (h + p) % 2:
+                        continue
+                    steps = block(h, focus) + e1 + block(h + 7, focus) + e2 + block(h + 3, 'i0') + ['-0'] + ['i0', 'I0', 'i3', 'b', 's']
+                    ln = mk_hist(K, init, pool, args, coords, steps)
+                    if ln:
+                        lines.append(ln)
+                    else:
+                        skipped[0] += 1
+
+    def tag_h(ln, a):
+        first = next((x for x in ln.split(' | ')[5].split() if x[0] in '-+*ozZ!PD'), '?')
+        return [f'hist:{ln.split()[1]}:{first[0]}']
+    run.run_cases('observe-edit-observe', lines, impl_hist, spec_hist, tag=tag_h)
+
+    lines = []
+    for _ in range(run.scale(120, 4000)):
+        K = rng.choice(['MP', 'ML', 'MT'])
+        xi = rng.randrange(len(singles))
+        sc = scenario(K, xi, singles[xi])
+        if sc is None:
+            continue
+        pool, args, coords = sc
+        cur = [rng.randrange(5) for _ in range(rng.randint(0, 4))]
+        init = list(cur)
+        steps = []
+        for _s in range(rng.randint(6, 24)):
+            r = rng.random()
+            if r < 0.6:
+                steps.append(rng.choice(OBS))
+            elif r < 0.68 and cur:
+                k = rng.randrange(len(cur))
+                steps.append(f'-{k}')
+                del cur[k]
+            elif r < 0.76 and len(cur) < 5:
+                k, i = rng.randint(0, len(cur)), rng.randrange(5)
+                steps.append(f'+{k}:{i}')
+                cur.insert(k, i)
+            elif r < 0.84 and cur:
+                k, i = rng.randrange(len(cur)), rng.randrange(5)
+                steps.append(f'*{k}:{i}')
+                cur[k] = i
+            elif r < 0.88 and cur:
+                perm = list(range(len(cur)))
+                rng.shuffle(perm)
+                steps.append('o' + ','.join(map(str, perm)))
+                cur = [cur[q] for q in perm]
+            elif r < 0.94:
+                cur = [rng.randrange(5) for _ in range(rng.randint(0, 4))]
+                steps.append(rng.choice('zZ') + (','.join(map(str, cur)) or '-'))
+            elif cur and r < 0.97:
+                steps.append(f'!{rng.randrange(len(cur))}')
+            else:
+                steps.append(rng.choice(['Pa=1', 'Pb=x', f'D{S.BASE_US},{S.BASE_US + 9}', 'Dnone']))
+        steps += ['i0', 'I0', 'c0', 'k0', 'i3', 'b', 's']
+        ln = mk_hist(K, init, pool, args, coords, steps)
+        if ln:
+            lines.append(ln)
+    run.run_cases('random-histories', lines, impl_hist, spec_hist, tag=tag_h)
+
     # ---- coverage of the positions (dead-generator guard, visible in the evidence) ----------------------
     gaps = []
     for op in ('cc', 'mis', 'mcs', 'simS', 'simP'):
@@ -549,8 +874,12 @@ def check(run):
              'multi-shape arguments; the related member(s) at every position (all 0/1 masks per length), every '
              'aim assignment of receiver members to argument parts, all member orders of fixed sets, bounds, '
              'split scenarios (every mutated member, parent dt/properties variants), members with own time '
-             'bounds, plus seeded random combinations. A case is one protocol line; non-trivial = the table has '
-             'a related entry or at least two entries (bounds/split always); distinct by line.',
+             'bounds, plus seeded random combinations; observe-edit-observe histories on one live multi-shape (every '
+             'observation, about several arguments in turn, before and after deleting / inserting / replacing / '
+             'reordering / clearing and refilling members in place or by rebinding, and time / property edits) whose '
+             'answers must be those of a fresh multi-shape with the current members. A case is one protocol line; '
+             'non-trivial = the table has a related entry or at least two entries (bounds/split/histories always); '
+             'distinct by line.',
         assumptions=['the member-level truth table is measured on the implementation itself (its correctness is C01/C02)',
                      'object identity of the property dictionaries is observed with `id`/`is` and modelled as heap addresses',
                      'copy.deepcopy / dict.copy are CPython runtime (modelled as allocation of a new dictionary)'],
